@@ -39,7 +39,17 @@ def function_matrix():
         tf('xs'), alias_field('A', 'xs'), ('un', '-', x), ('bin', '+', x, num(1)), ('bin', '/', num(1), num(2)),
         ('range', num(0), ('lit', '18446744073709551615', 18446744073709551615), False, False), ('range', ('un', '-', ('lit', '9223372036854775808', 9223372036854775808)), ('lit', '9223372036854775807', 9223372036854775807), False, True),
         ('lit', '9007199254740993', 9007199254740993),
+        # one reference among literals that cancel out (sum 0, product 1) or dominate (max / min)
+        ('set', (alias_field('A', 'x'), num(1), ('un', '-', num(1)))), ('set', (('var', 'v'),)), ('set', (alias_field('A', 'x'),)), ('set', (x, num(0))), ('set', (('var', 'v'), num(1))),
+        ('set', (alias_field('A', 'x'), num(2), ('lit', '0.5', 0.5))), ('set', (num(0), ('var', 'v'), num(0))), ('set', (('var', 'v'), ('var', 'v'))),
     ]
+
+    def first_reference(a):
+        for u in absyn.subterms(a):
+            if u[0] in ('field', 'var'):
+                return u
+        return None
+
     out = []
     for f in c06.FUNCTIONS:
         for a in args:
@@ -55,6 +65,13 @@ def function_matrix():
             out.append(('un', '-', c))
             out.append(('bin', 'and', ('bin', '>', c, num(0)), ('bin', '>', alias_field('A', 'x'), c)))
             out.append(('bin', 'in', c, ('set', (c, num(1)))))
+            m = first_reference(a)
+            if m is not None:
+                # the call compared / combined with the very reference it was computed from
+                for op in ('=', '!=', '<'):
+                    out.append(('bin', op, c, m))
+                    out.append(('bin', op, m, c))
+                out.append(('bin', '=', ('bin', '-', c, m), num(0)))
     return out
 
 
@@ -367,7 +384,7 @@ def replay(w):
 def describe(tier):
     b = bounds(tier)
     return {
-        'rule': f"(a) every accepted Bool/Num/Str term with <= {b['nodes']} nodes of the C06 grammar (every expression node kind) as expression and predicate; (b) each of the 27 built-in functions x 30 argument shapes (number / string / bool literals, fields, alias fields, message field, variable, sets of literals / with fields / singleton, ranges incl. reversed, empty and with non-literal bounds, arrays, arithmetic) alone and in 16 contexts (either side of 3 comparisons, arithmetic, unary minus, conjunction with an alias atom, set member); (b') every term with <= 5 (thorough 6) nodes of the boolean + quantifier fragment with alias atoms (the shapes the quantifier-splitting code of split_and / refactor_reference works on); (b'') the shape-directed families of C08; (c) every property skeleton (widths <= {b['max_width']}) x 6 decorations. Calls: simplify, split_and, refactor_reference (A, C), replace_this_with_var (Z, A), replace_var_with_this (A, v), get_conjuncts, get_disjuncts, canonical_form. A state = one accepted AST; a transition = one call.",
+        'rule': f"(a) every accepted Bool/Num/Str term with <= {b['nodes']} nodes of the C06 grammar (every expression node kind) as expression and predicate; (b) each of the 27 built-in functions x 38 argument shapes (a reference among literals that cancel out, number / string / bool literals, fields, alias fields, message field, variable, sets of literals / with fields / singleton, ranges incl. reversed, empty and with non-literal bounds, arrays, arithmetic) alone and in 16-23 contexts (compared with the very reference it was computed from, either side of 3 comparisons, arithmetic, unary minus, conjunction with an alias atom, set member); (b') every term with <= 5 (thorough 6) nodes of the boolean + quantifier fragment with alias atoms (the shapes the quantifier-splitting code of split_and / refactor_reference works on); (b'') the shape-directed families of C08; (c) every property skeleton (widths <= {b['max_width']}) x 6 decorations. Calls: simplify, split_and, refactor_reference (A, C), replace_this_with_var (Z, A), replace_var_with_this (A, v), get_conjuncts, get_disjuncts, canonical_form. A state = one accepted AST; a transition = one call.",
         'bounds': b,
         'exhaustive': True,
         'assumptions': [
